@@ -235,6 +235,47 @@ def wrapSub (bits p b : Nat) : Nat := (p + 2 ^ bits - b) % 2 ^ bits
 def diffPromoted (bits : Nat) (o : DiffOpt) (base probe : List Nat) : List Rat :=
   List.zipWith (fun p b => o.val (promote bits p) (promote bits b)) probe base
 
+/-! ### promotion per dtype class (every dtype `img_as(float)` accepts) -/
+
+/-- numpy dtype kinds: unsigned / signed integer, bool, float -/
+inductive DKind | u | i | b | f
+  deriving DecidableEq, Repr
+
+/-- what happens to a pixel value before the subtraction: `skimage.img_as_float` on an unsigned type (value / max), on a
+signed type (value / max, clipped at −1), or nothing (floats of any precision; `True`/`False` become 1/0; also "the raw
+value is used", which is what a missing promotion amounts to) -/
+inductive PRule | unsigned | signedClip | asIs
+  deriving DecidableEq, Repr
+
+/-- the rule `Image.img_as(float)` applies to each kind; the constructor, `update` and `__call__` all use it -/
+def DKind.rule : DKind → PRule
+  | .u => .unsigned | .i => .signedClip | .b => .asIs | .f => .asIs
+
+def PRule.apply (r : PRule) (bits : Nat) (x : Rat) : Rat :=
+  match r with
+  | .unsigned => x / ((2 ^ bits - 1 : Nat) : Rat)
+  | .signedClip => maxR (-1) (x / ((2 ^ (bits - 1) - 1 : Nat) : Rat))
+  | .asIs => x
+
+/-- one row of the table tabulated from the implementation: the rule observed for `img_as(float)`, for the stored
+baseline after construction and after `update(base=…)`, and for the probe inside `__call__` -/
+structure DTypeRow where
+  name : String
+  kind : DKind
+  bits : Nat
+  imgAs : PRule
+  ctor : PRule
+  update : PRule
+  call : PRule
+  deriving DecidableEq, Repr
+
+/-- `_subtract_background` on a probe value of kind `kp` and a baseline value of kind `kb`, each promoted by its own rule -/
+def diffD (o : DiffOpt) (kb : DKind) (bb : Nat) (kp : DKind) (bp : Nat) (b p : Rat) : Rat :=
+  o.val (kp.rule.apply bp p) (kb.rule.apply bb b)
+
+def diffDList (o : DiffOpt) (kb : DKind) (bb : Nat) (kp : DKind) (bp : Nat) (base probe : List Rat) : List Rat :=
+  List.zipWith (fun p b => diffD o kb bb kp bp b p) probe base
+
 /-- the threshold after processing the reduced extra-baseline signals one after the other (the loop of
 `find_cleaning_filter`), starting from zeros of the shape of the first -/
 def accumulate (signals : List (List Px)) : List Px :=
